@@ -768,17 +768,26 @@ def _run_search(world: World, plan):
         for task in tasks:
             if not task.cancelled() and task.exception() is not None:
                 raise task.exception()
+        for call in remove_calls.values():      # a removal placed beyond the horizon does not happen
+            if not call.done:
+                call.task.cancel()
         await asyncio.sleep(0.5)
-        t_end[0] = loop.time()
         # the server connection still reads: a fresh notification is delivered
         conn = client.network.server_connection
         probe['session'] = server.send_to('alice', M.GetUserStatus.Response(PROBE_USER, 2, False))
         probe['state'] = getattr(getattr(conn, 'state', None), 'name', None)
         await asyncio.sleep(1.5)
+        t_end[0] = loop.time()
+        model.snapshot(t_end[0], {ident_of(obj) for obj in client.searches.requests.values()})
 
     world.run(main())
 
     # ------------------------------------------------------------------ oracle
+    for entry in removal_log:
+        call = remove_calls.get(entry['op'])
+        if call is not None and call.exception is not None:
+            world.probe('remove_request_refused')
+            model.refused(entry['idx'], entry['t'])
     violations, stats = model.evaluate(t_end[0])
     for invariant, facts in violations:
         world.violate(invariant, **facts)
@@ -806,6 +815,12 @@ def _run_search(world: World, plan):
         world.probe('event_in_instant_of_removal_or_expiry', stats['ties'])
     if stats['stale_replies']:
         world.probe('reply_for_ended_request', stats['stale_replies'])
+    if stats['live_replies']:
+        world.probe('reply_for_live_request', stats['live_replies'])
+    if stats['reply_status'].count('unknown'):
+        world.probe('reply_with_unknown_ticket', stats['reply_status'].count('unknown'))
+    if stats['expired']:
+        world.probe('request_expired', stats['expired'])
     if len(interval_hist) > 1:
         world.probe('repeated_wishlist_interval')
     manual_with_timer = 0
